@@ -169,6 +169,9 @@ func c20Ask(c *sim.Chain, path string, req gogoproto.Message) (code uint32, val 
 }
 
 // c20CompareQueries issues the same queries to both committed states and reports differences per query method.
+// c20Where names the universe and the moment of the comparison under way (witness only; one test goroutine per process).
+var c20Where string
+
 func c20CompareQueries(rec *ev.Rec, orig, imp *sim.Chain, queries []c20Query, addrs []string) {
 	for _, q := range queries {
 		if c20IsHistory(q) {
@@ -200,6 +203,9 @@ func c20CompareQueries(rec *ev.Rec, orig, imp *sim.Chain, queries []c20Query, ad
 		}
 		if differs > 0 {
 			first["requests_differing"] = differs
+			if c20Where != "" {
+				first["where"] = c20Where
+			}
 			rec.Violate("C20/query/"+q.Short, fmt.Sprintf("%d of %d requests answer differently on the re-imported chain", differs, len(reqs)), first)
 		}
 	}
